@@ -23,7 +23,10 @@
 EXTENDS Clauses, TLC
 
 CONSTANTS K, MaxLeaves, MaxDepth, MaxN,
-          ScratchSize   \* "code": K=4 -> 4*A, K=2 -> max(A, 2) ; "asfound": K=2 -> A
+          ScratchSize,  \* "code": K=4 -> 4*A, K=2 -> max(A, 2) ; "asfound": K=2 -> A
+          Finished,     \* "last" (code): symbols whose code has ended are moved behind the continuing ones ; "first":
+                        \* an equivalent design (the next level filters them out anyway: MC_HuffWM_k4_equiv_finished must PASS)
+          EarlyExit     \* TRUE (code): get stops as soon as its position falls outside the level ; FALSE: a seeded change
 
 FR == IF K = 4 THEN 2 ELSE 1          \* bits per level
 MASK == K - 1
@@ -135,8 +138,8 @@ Partition(codes, seq, lvl) ==
     LET fin(a) == NDig(codes[a]) <= lvl
         bucket(d) == SelectSeq(seq, LAMBDA a : ~fin(a) /\ Digit(codes[a], lvl) = d)
         RECURSIVE Cat(_)
-        Cat(d) == IF d = K THEN SelectSeq(seq, fin) ELSE bucket(d) \o Cat(d + 1)
-    IN  Cat(0)
+        Cat(d) == IF d = K THEN (IF Finished = "last" THEN SelectSeq(seq, fin) ELSE << >>) ELSE bucket(d) \o Cat(d + 1)
+    IN  (IF Finished = "first" THEN SelectSeq(seq, fin) ELSE << >>) \o Cat(0)
 
 \* levels[lvl] = digits written at level lvl; built from the sequence as reordered so far
 RECURSIVE BuildLevels(_, _, _)
@@ -155,7 +158,8 @@ SelectL(L, d, k) == IF k < Len(Positions(L, d)) THEN Positions(L, d)[k + 1] - 1 
 
 RECURSIVE GetWalk(_, _, _, _, _, _)
 GetWalk(codes, levels, lvl, cur, res, nd) ==
-    IF lvl > Len(levels) \/ cur >= Len(levels[lvl]) THEN <<res, nd>>
+    IF lvl > Len(levels) \/ (EarlyExit /\ cur >= Len(levels[lvl])) THEN <<res, nd>>
+    ELSE IF cur >= Len(levels[lvl]) THEN <<OOB, nd>>   \* the unchecked read would leave the level
     ELSE LET L == levels[lvl]
              d == L[cur + 1]
          IN  GetWalk(codes, levels, lvl + 1, RankL(L, d, cur) + OccsSmaller(L, d), res * K + d, nd + 1)
